@@ -399,6 +399,8 @@ func gen(seed int64, n int, tier string) []interface{} {
 		in := Input{Via: "api"}
 		if k%8 == 3 {
 			in.Via = "cli"
+		} else if k%8 == 6 { // the root command in-process, after an earlier request over every extension of the tree
+			in.Via = "cmd"
 		}
 		seen := map[string]bool{}
 		for len(in.Files) < nf {
